@@ -4,14 +4,22 @@
 A FaultProxy listens on its own socket path and forwards each accepted connection to the daemon.  The n-th
 connection (n = 0, 1, ...) is treated according to plan[n]:
     None                     clean: request forwarded, reply forwarded
-    ("Q", k)                 request cut: only the first k bytes of the request reach the daemon, then both
-                             sides are closed (the daemon sees a short header/body and processes nothing)
+    ("Q", k)                 request cut on the way: the client's complete request is read (its write succeeded), only the
+                             first k bytes reach the daemon, then both sides are closed (the daemon sees a short header/body
+                             and processes nothing; the client sees EOF where the reply should be)
+    ("W", k)                 request cut while it is being written: only k bytes are taken from the client, they are passed on
+                             to the daemon, then both sides are closed with the rest of the request unread.  A client whose
+                             request does not fit into the socket send buffer (or, for k = 0, a client that writes after the
+                             close) gets EPIPE/ECONNRESET from its write; a client whose write had completed gets ECONNRESET
+                             from its read.  The daemon processes nothing.
     ("L", k)                 reply lost: the daemon's complete reply is read (its send succeeded), only the first
                              k bytes are passed on to the client, then the connection is closed
     ("S", 0)                 reply send failed: the daemon-side socket is shut down for reading before the full request
                              is forwarded, so that the daemon's m_msg_send fails (EPIPE) and it rolls back
+    ("C", 0)                 connection refused: before the n-th connection can be attempted the proxy stops listening (the
+                             socket file stays), so connect() fails with ECONNREFUSED until the next set_plan()
 Connections beyond the plan are clean.  One connection at a time (libmunge is sequential)."""
-import os, socket, struct, threading
+import os, select, socket, struct, threading, time
 
 
 def _recv_msg(s, timeout=5.0):
@@ -26,7 +34,21 @@ def _recv_msg(s, timeout=5.0):
             buf += c
         ln = struct.unpack(">I", buf[7:11])[0]
         while len(buf) < 11 + ln:
-            c = s.recv(min(65536, 11 + ln - len(buf)))
+            c = s.recv(min(1 << 20, 11 + ln - len(buf)))
+            if not c:
+                break
+            buf += c
+    except (socket.timeout, OSError):
+        pass
+    return buf
+
+
+def _recv_n(s, n, timeout=5.0):
+    s.settimeout(timeout)
+    buf = b""
+    try:
+        while len(buf) < n:
+            c = s.recv(min(65536, n - len(buf)))
             if not c:
                 break
             buf += c
@@ -42,45 +64,103 @@ class FaultProxy:
         self.plan = []
         self.count = 0
         self.log = []
-        self.ls = socket.socket(socket.AF_UNIX, socket.SOCK_STREAM)
-        if os.path.exists(listen_path):
-            os.unlink(listen_path)
-        self.ls.bind(listen_path)
-        os.chmod(listen_path, 0o777)
-        self.ls.listen(16)
+        self.ls = None
         self.stop = False
+        self._lock = threading.Lock()
+        self._wr, self._ww = os.pipe()
+        self._cmds = []
+        self._listen()
         self.t = threading.Thread(target=self._run, daemon=True)
         self.t.start()
 
+    # ------------------------------------------------------------------ listening socket
+    def _listen(self):
+        if self.ls is not None:
+            return
+        if os.path.exists(self.listen_path):
+            os.unlink(self.listen_path)
+        ls = socket.socket(socket.AF_UNIX, socket.SOCK_STREAM)
+        ls.bind(self.listen_path)
+        os.chmod(self.listen_path, 0o777)
+        ls.listen(16)
+        self.ls = ls
+
+    def _unlisten(self):
+        """stop listening but leave the socket file: connect() is refused"""
+        if self.ls is not None:
+            self.ls.close()
+            self.ls = None
+
+    def _next_is_refuse(self):
+        f = self.plan[self.count] if self.count < len(self.plan) else None
+        return bool(f) and f[0] == "C"
+
+    # ------------------------------------------------------------------ control (called from the check's thread)
+    def _command(self, fn):
+        ev = threading.Event()
+        with self._lock:
+            self._cmds.append((fn, ev))
+        os.write(self._ww, b"x")
+        if not ev.wait(10):
+            raise RuntimeError("fault proxy does not respond")
+
     def set_plan(self, plan):
-        self.plan = list(plan)
-        self.count = 0
-        self.log = []
+        def apply():
+            self.plan = [tuple(f) if f else None for f in plan]
+            self.count = 0
+            self.log = []
+            if self._next_is_refuse():
+                self._unlisten()
+                self.log.append(("C", 0))
+            else:
+                self._listen()
+        self._command(apply)
 
     def close(self):
         self.stop = True
         try:
-            k = socket.socket(socket.AF_UNIX, socket.SOCK_STREAM)
-            k.connect(self.listen_path)
-            k.close()
+            os.write(self._ww, b"x")
         except OSError:
             pass
-        self.t.join(2)
-        self.ls.close()
+        self.t.join(3)
+        self._unlisten()
+        for fd in (self._wr, self._ww):
+            try:
+                os.close(fd)
+            except OSError:
+                pass
         try:
             os.unlink(self.listen_path)
         except OSError:
             pass
 
+    # ------------------------------------------------------------------ proxy thread
     def _run(self):
         while not self.stop:
+            rl = [self._wr] + ([self.ls] if self.ls is not None else [])
+            try:
+                r, _, _ = select.select(rl, [], [], 1.0)
+            except (OSError, ValueError):
+                continue
+            if self._wr in r:
+                try:
+                    os.read(self._wr, 64)
+                except OSError:
+                    pass
+                with self._lock:
+                    cmds, self._cmds = self._cmds, []
+                for fn, ev in cmds:
+                    try:
+                        fn()
+                    finally:
+                        ev.set()
+                continue
+            if self.ls is None or self.ls not in r:
+                continue
             try:
                 c, _ = self.ls.accept()
             except OSError:
-                return
-            if self.stop:
-                c.close()
-                return
+                continue
             n = self.count
             self.count += 1
             f = self.plan[n] if n < len(self.plan) else None
@@ -89,12 +169,28 @@ class FaultProxy:
             except OSError as e:
                 self.log.append(("error", n, str(e)))
             finally:
+                # the next connection is to be refused: stop listening BEFORE this client learns that its connection is over
+                if self._next_is_refuse():
+                    self._unlisten()
+                    self.log.append(("C", 0))
                 try:
                     c.close()
                 except OSError:
                     pass
 
     def _handle(self, c, f):
+        if f and f[0] == "W":
+            k = f[1]
+            part = _recv_n(c, k) if k > 0 else b""
+            d = socket.socket(socket.AF_UNIX, socket.SOCK_STREAM)
+            try:
+                d.connect(self.daemon_path)
+                if part:
+                    d.sendall(part)
+            finally:
+                d.close()
+            self.log.append(("W", len(part)))
+            return          # the caller closes c with the rest of the request unread
         req = _recv_msg(c)
         d = socket.socket(socket.AF_UNIX, socket.SOCK_STREAM)
         d.connect(self.daemon_path)
@@ -110,8 +206,7 @@ class FaultProxy:
                 # (EPIPE) however fast it is; closing only afterwards would race with the reply
                 d.shutdown(socket.SHUT_RD)
                 d.sendall(req)
-                import time as _t
-                _t.sleep(0.05)
+                self._await_peer_close(d)
                 d.close()
                 self.log.append(("S", len(req)))
                 return
@@ -123,9 +218,21 @@ class FaultProxy:
                 self.log.append(("L", k, len(rsp)))
                 return
             c.sendall(rsp)
-            self.log.append(("clean", len(req), len(rsp)))
+            self.log.append(("clean", len(req), len(rsp), req[6] if len(req) > 6 else -1))
         finally:
             try:
                 d.close()
             except OSError:
                 pass
+
+    @staticmethod
+    def _await_peer_close(d, limit=3.0):
+        """wait until the daemon has given up on this connection: munged closes the socket after dec_process_msg returned,
+        i.e. after its failed write AND the roll-back; POLLHUP is reported when both directions are shut down"""
+        p = select.poll()
+        p.register(d, select.POLLHUP | select.POLLERR)
+        t0 = time.time()
+        while time.time() - t0 < limit:
+            if any(e & (select.POLLHUP | select.POLLERR) for _, e in p.poll(20)):
+                return True
+        return False
